@@ -518,9 +518,11 @@ pub fn run(args: &Args, out: &mut Out) {
 /// (library, text before, the statement, text after, lint reported inside the statement)
 const DIALECT_STMTS: &[(&str, &str, &str, &str, &str)] = &[
     ("lua52", "local x = 1\n", "goto done", "\ndo print(x) end\n::done::\n", ""),
-    ("lua52", "do\n  print(1) ", "goto done", "\nend\n::done::\n", "multiple_statements"),
-    ("lua52", "print(1) ", "::first::", " print(2)\ngoto first\n", "multiple_statements"),
-    ("lua52", "print(1)\n::a:: ", "::b::", "\ngoto a\ngoto b\n", "multiple_statements"),
+    // the comment stands at the start of its line (full_moon attaches a comment that follows a token on the same line to
+    // THAT token, as trailing trivia: such a comment is not "before" the next statement)
+    ("lua52", "do\n  print(1)\n  ", "goto done", " end\n::done::\n", "multiple_statements"),
+    ("lua52", "do\n  print(1)\n  ", "::first::", " end\ngoto first\n", "multiple_statements"),
+    ("lua52", "::a::\ndo\n  goto a\n  ", "::b::", " end\n", "multiple_statements"),
     ("lua52", "", "local unused_a = 1", "\n::l:: goto l\n", "unused_variable"),
     ("lua52", "::top::\n", "if undefined_b then goto top end", "\n", "undefined_variable"),
     ("luau", "", "type function build()\n  local unused_c = 1\n  return nil\nend", "\n", "unused_variable"),
@@ -530,7 +532,7 @@ const DIALECT_STMTS: &[(&str, &str, &str, &str, &str)] = &[
     ("luau", "for i = 1, 2 do\n  ", "if i == undefined_g then continue end", "\nend\n", "undefined_variable"),
     ("luau", "", "local unused_h: number = 1", "\n", "unused_variable"),
     ("lua51", "", "local unused_i = 1", "\n", "unused_variable"),
-    ("lua51", "print(1) ", "print(2)", "\n", "multiple_statements"),
+    ("lua51", "do\n  print(1)\n  ", "print(2)", " end\n", "multiple_statements"),
 ];
 
 fn canon_diag(d: &CheckerDiagnostic, shift_from: usize, shift: i64) -> String {
